@@ -299,7 +299,7 @@ def budget(tier):
         return {"examples": 0, "shards": 1}
     if tier == "quick":
         return {"examples": 3000, "shards": 1}
-    return {"examples": 30000, "shards": 16}
+    return {"examples": 20000, "shards": 16}
 
 
 # --------------------------------------------------------------------------------------
@@ -940,7 +940,7 @@ def _start_campaign(tmp, label, runs, fseed, seeded, idx):
     cmd = [
         sys.executable, "-m", "vf.props.c16_fuzz", corpus, f"-runs={runs}", f"-seed={fseed}", "-max_len=48",
         f"-dict={dict_path}", f"-artifact_prefix={work}{os.sep}", "-print_final_stats=1",
-        "-max_total_time=%d" % int(os.environ.get("C16_FUZZ_MAX_S", "360")),
+        "-max_total_time=%d" % int(os.environ.get("C16_FUZZ_MAX_S", "240")),
     ]
     cmd = _no_aslr() + cmd
     errf = open(os.path.join(work, "stderr.txt"), "wb")
